@@ -737,6 +737,7 @@ int state_scrub(struct snapraid_state* state, int plan, int olderthan)
 	block_off_t countlimit;
 	block_off_t i;
 	block_off_t count;
+	block_off_t usedcount;
 	time_t recentlimit;
 	int ret;
 	struct snapraid_parity_handle parity_handle[LEV_MAX];
@@ -803,6 +804,7 @@ int state_scrub(struct snapraid_state* state, int plan, int olderthan)
 
 	/* copy the info in the temp vector */
 	count = 0;
+	usedcount = 0;
 	log_tag("block_count:%u\n", blockmax);
 	for (i = 0; i < blockmax; ++i) {
 		snapraid_info info = info_get(&state->infoarr, i);
@@ -811,10 +813,18 @@ int state_scrub(struct snapraid_state* state, int plan, int olderthan)
 		if (info == 0)
 			continue;
 
+		++usedcount;
+
+		/* bad blocks are always scrubbed in all plans, and they never get */
+		/* a new time, so they must not take the place of the oldest blocks */
+		/* in the quota, otherwise the other blocks are never reached */
+		if (info_get_bad(info))
+			continue;
+
 		timemap[count++] = info_get_time(info);
 	}
 
-	if (!count) {
+	if (!usedcount) {
 		/* LCOV_EXCL_START */
 		log_fatal("The array appears to be empty.\n");
 		exit(EXIT_FAILURE);
